@@ -184,6 +184,9 @@ func purgeReplay(args []string) error {
 		e := newMetaEnv(wdir, 64, *seed, *crc)
 		e.conc = 2
 		fx := newPurgeFixture(e)
+		// every purge command of the scenario works from the same local index directory, as an operator running
+		// them from one working directory does (nothing of a previous command may leak into the next)
+		kvDir := e.scratch("kv")
 		class := "plain"
 		switch {
 		case c.Crash != 99:
@@ -217,10 +220,18 @@ func purgeReplay(args []string) error {
 			if c.Prebuild > 0 && si == c.Prebuild {
 				// an earlier, complete index (one key per chunk): its chunk files must not leak into the next index
 				pst, _ := e.client()
-				if _, err := core.PurgeBuildReverseIndex(pst, purgeOpts(e.scratch("kv"), 1)...); err != nil {
+				if _, err := core.PurgeBuildReverseIndex(pst, purgeOpts(kvDir, 1)...); err != nil {
 					panic(err)
 				}
 				time.Sleep(2 * time.Millisecond)
+				// ... and, for every other scenario, the complete earlier purge round: what it removes (old blobs no
+				// bundle references) would be removed by the round under test as well
+				if (i+int(*seed))%2 == 0 {
+					if _, err := core.PurgeDeleteUnused(pst, purgeOpts(kvDir, 1)...); err != nil {
+						panic(err)
+					}
+					time.Sleep(2 * time.Millisecond)
+				}
 			}
 			r.Steps++
 			if st.Op == "up" {
@@ -271,7 +282,7 @@ func purgeReplay(args []string) error {
 					ctl.FaultAt = 2
 				}
 			}
-			opts := purgeOpts(e.scratch("kv"), c.Chunk)
+			opts := purgeOpts(kvDir, c.Chunk)
 			if resume {
 				opts = append(opts, core.WithPurgeResumeIndex(true))
 			}
@@ -429,7 +440,7 @@ func purgeReplay(args []string) error {
 						success = false
 					}
 				}()
-				if _, err := core.PurgeDeleteUnused(dstores, purgeOpts(e.scratch("kv"), c.Chunk)...); err != nil {
+				if _, err := core.PurgeDeleteUnused(dstores, purgeOpts(kvDir, c.Chunk)...); err != nil {
 					success = false
 				}
 			}()
